@@ -160,6 +160,11 @@ def listRaw (C : Codec) (key : Bytes) (s : KV) : Option Entry :=
   | some v => loadValue C v
   | none => none
 
+/-- a batch of inserts executed as atomic steps in the listed order (what any interleaving of concurrent
+    writers amounts to when every store insert is atomic) -/
+def insertAll (C : Codec) (s : KV) (l : List (Bytes × Entry)) : KV :=
+  l.foldl (fun s p => insert C p.1 s p.2) s
+
 /-! ### hard links -/
 
 /-- the hard link id token of an entry ("-" = none) -/
